@@ -18,6 +18,10 @@ def real_trace_batch(acc, batch, **kw):
     poolcheck.real_trace_batch(acc, batch, **kw)
 
 
+def real_output_batch(acc, batch, **kw):
+    poolcheck.real_output_batch(acc, batch, **kw)
+
+
 def real_kill_batch(acc, batch, **kw):
     poolcheck.real_kill_batch(acc, batch, **kw)
 
